@@ -127,6 +127,9 @@ class Integ:
         loop = asyncio.get_running_loop()
         assert isinstance(loop, VirtualLoop), "Integ must run on a VirtualLoop"
         reset_class_state()
+        # available to file preambles during the initial load as well
+        Function.functions["vrec"] = self._vrec
+        Function.functions["vnow"] = self.vt
         self.dir = tempfile.mkdtemp(prefix="verif-l3-")
         os.makedirs(os.path.join(self.dir, "pyscript"), exist_ok=True)
         self.write_files()
